@@ -258,6 +258,8 @@ def profile_C08(g, tier):
         fam["p_pop_shared"] = 0.5
     if g.chance("replay", 0.25):
         scen["epochs"] = [{"crash_at": g.pick("crash_at", [0.26, 0.57, 1.05])}, {"replay": "job0"}]
+    if g.chance("badsession", 0.3):
+        fam["p_bad_session"] = g.pick("p_bad_session", [0.1, 0.3])
     return scen
 
 
